@@ -6,8 +6,13 @@ Traces == JsonDeserialize(IOEnv.TRACE_FILE)
 VARIABLE tid
 Tr == Traces[tid]
 Runs == {Tr.runs[i] : i \in 1..Len(Tr.runs)}
+\* inputs parsed by rdflib (Turtle, RDF/XML, N3, JSON-LD text, an rdflib Graph) reach the library in the iteration order of
+\* rdflib's memory store - a set of triples: the order of the shapes, first-seen examples and tie winners follow the hash seed
+\* (known finding KF.C19.rdfliborder); the line-based readers (N-Triples, TSV, the streaming Turtle reader) keep document order
+RdflibChannel == Tr.channel \in {"turtle", "xml", "n3", "json-ld", "rdflib"}
 Clauses == (IF Cardinality({r.status : r \in Runs}) > 1 THEN {"C19.status"} ELSE {}) \cup
-           (IF Cardinality({r.sha : r \in {x \in Runs : x.status = "ok"}}) > 1 THEN {"C19.output"} ELSE {})
+           (IF Cardinality({r.sha : r \in {x \in Runs : x.status = "ok"}}) > 1
+            THEN {IF RdflibChannel THEN "KF.C19.rdfliborder" ELSE "C19.output"} ELSE {})
 Init == tid \in 1..Len(Traces)
 Next == UNCHANGED tid
 Spec == Init /\ [][Next]_tid
